@@ -640,7 +640,9 @@ def shared_state(ctx):
 def _import_time_only(M, fn, inner):
     """fn (a module-level function) is used only as a decorator of definitions - `@fn` / `@fn(args)` - so that its body, and the body of the function it returns,
     run while modules are imported and at no other time"""
-    if fn.cls is not None or fn.parent is not None:
+    while getattr(fn, 'parent', None) is not None:
+        fn = fn.parent          # the function a registering decorator returns runs when the decorator is applied
+    if fn.cls is not None:
         return False
     used_as_deco = False
     for g in list(M.all_funcs()):
@@ -677,6 +679,8 @@ def _only_prints(stmt, fn):
     params = set(fn.params) | ({p_ for g_ in getattr(fn, 'nested', {}).values() for p_ in g_.params})
     if isinstance(stmt, ast.Expr) and is_print_call(stmt.value):
         return True
+    if isinstance(stmt, ast.Expr) and isinstance(stmt.value, ast.Yield) and stmt.value.value is not None and deferred_print(stmt.value.value):
+        return True         # a print handed to the caller as a deferred step
     if isinstance(stmt, ast.Expr) and isinstance(stmt.value, ast.Call) and isinstance(stmt.value.func, ast.Attribute) and isinstance(stmt.value.func.value, ast.Name):
         nm, meth = stmt.value.func.value.id, stmt.value.func.attr
         if meth == 'append' and len(stmt.value.args) == 1 and deferred_print(stmt.value.args[0]):
